@@ -78,9 +78,9 @@ extern ssize_t mpt_memtok(const struct iovec *data, size_t ndat, const char *tok
 				break;
 			/* continue until end of line */
 			do {
-				while ( pos++ < len && *(++curr) != '\n' );
+				while ( ++pos < len && *(++curr) != '\n' );
 				
-				if ( pos <= len )
+				if ( pos < len )
 					break;
 				else if ( i >= ndat ) {
 					errno = EAGAIN; return -2;
@@ -89,7 +89,7 @@ extern ssize_t mpt_memtok(const struct iovec *data, size_t ndat, const char *tok
 				curr = data[i].iov_base;
 				len  = data[i++].iov_len;
 				
-			} while ( 1 );
+			} while ( !len || *curr != '\n' );
 		}
 		/* token is found */
 		if ( tok ) {
